@@ -1,4 +1,5 @@
 import AlgoVerif.Proofs.C13Min
+import AlgoVerif.Proofs.C13Minimal
 /-! C13: the partition-refinement loop of `Minimize`: whenever it returns, the partition is stable. -/
 namespace AlgoVerif.C13
 open AlgoVerif AlgoVerif.C13.Spec
@@ -339,6 +340,9 @@ structure RInv (P : Partition) (d : DFA) (done : List (List Int × Int)) (Pn : P
   sig : ∀ H ∈ Pn.groups, ∀ s ∈ H.1, ∀ t ∈ H.1, SigEq P d s t
   nr : Pn.nextRep = (Pn.groups.length : Int)
   ne : ∀ H ∈ Pn.groups, H.1 ≠ []
+  /-- members of one old group with the same signature end up in the same new group -/
+  sep : ∀ H ∈ Pn.groups, ∀ K ∈ Pn.groups, ∀ x ∈ H.1, ∀ y ∈ K.1, SigEq P d x y →
+    (∃ G ∈ done, x ∈ G.1 ∧ y ∈ G.1) → H = K
 
 /-- a group created while processing the group `G` -/
 structure NewGrp (P : Partition) (d : DFA) (G : List Int) (pairs seen : List (Int × List (Int × Int))) (H : List Int) : Prop where
@@ -347,7 +351,7 @@ structure NewGrp (P : Partition) (d : DFA) (G : List Int) (pairs seen : List (In
   closed : ∀ pr ∈ pairs.drop 1, (∃ s' ∈ H, SigEq P d s' pr.1) → pr.1 ∈ H
 
 /-- invariant of the loop over the pairs of one group -/
-structure IInv (P : Partition) (d : DFA) (Pn : Partition) (G : List Int) (pairs seen : List (Int × List (Int × Int)))
+structure IInv (P : Partition) (d : DFA) (done : List (List Int × Int)) (Pn : Partition) (G : List Int) (pairs seen : List (Int × List (Int × Int)))
     (p : Partition) : Prop where
   wf : PWF p
   old : ∀ H ∈ Pn.groups, H ∈ p.groups
@@ -357,6 +361,8 @@ structure IInv (P : Partition) (d : DFA) (Pn : Partition) (G : List Int) (pairs 
   nr : p.nextRep = (p.groups.length : Int)
   ne : ∀ H ∈ p.groups, H.1 ≠ []
   app : ∃ news, p.groups = Pn.groups ++ news ∧ (seen ≠ [] → news ≠ [])
+  sep : ∀ H ∈ p.groups, ∀ K ∈ p.groups, ∀ x ∈ H.1, ∀ y ∈ K.1, SigEq P d x y →
+    ((∃ G' ∈ done, x ∈ G'.1 ∧ y ∈ G'.1) ∨ (x ∈ G ∧ y ∈ G)) → H = K
 
 theorem Partition.add_of_fresh (p : Partition) (H : List Int) (h : ∀ g ∈ p.groups, setEq g.1 H = false) :
     p.add H = ⟨p.groups ++ [(H, p.nextRep)], p.nextRep + 1⟩ := by
@@ -374,8 +380,8 @@ theorem paag_loop (P : Partition) (d : DFA) (hwf : d.WF) (done : List (List Int 
     (hR : RInv P d done Pn) (G : List Int) (hGd : ∀ G' ∈ done, ∀ x ∈ G'.1, x ∉ G)
     (pairs : List (Int × List (Int × Int))) (hpairs : ∀ s σ, (s, σ) ∈ pairs → s ∈ G ∧ σ = sigOf P d s)
     (rest seen : List (Int × List (Int × Int))) (hsplit : pairs = seen ++ rest) (p : Partition)
-    (hI : IInv P d Pn G pairs seen p) :
-    IInv P d Pn G pairs pairs (rest.foldl (fun p pr =>
+    (hI : IInv P d done Pn G pairs seen p) :
+    IInv P d done Pn G pairs pairs (rest.foldl (fun p pr =>
       if p.rep pr.1 = -1 then p.add (collectSame pr.2 (pairs.drop 1) (mkSet [pr.1])) else p) p) := by
   induction rest generalizing seen p with
   | nil => simp at hsplit; subst hsplit; simpa using hI
@@ -449,7 +455,7 @@ theorem paag_loop (P : Partition) (d : DFA) (hwf : d.WF) (done : List (List Int 
         intro pr hpr ⟨s', hs', hse⟩
         obtain ⟨x, τ⟩ := pr
         exact (hmem x).2 (Or.inr ⟨τ, hpr, (hsig s' hs').trans hse⟩)
-      refine ⟨a1, fun H hH => a3 H (hI.old H hH), ?_, ?_, ?_, ?_, ?_, ?_⟩
+      refine ⟨a1, fun H hH => a3 H (hI.old H hH), ?_, ?_, ?_, ?_, ?_, ?_, ?_⟩
       · intro H hH
         rcases a2 H hH with h | rfl
         · rcases hI.grp H h with h' | h'
@@ -474,8 +480,33 @@ theorem paag_loop (P : Partition) (d : DFA) (hwf : d.WF) (done : List (List Int 
         · intro he; simp only at he; rw [he] at hsH'; simp at hsH'
       · obtain ⟨news, hn1, _⟩ := hI.app
         exact ⟨news ++ [(H', p.nextRep)], by rw [hadd]; simp [hn1], fun _ => by simp⟩
+      · -- an existing group cannot hold a state with the signature of `s` from the same old group
+        have hnew_old : ∀ K ∈ p.groups, ∀ x ∈ K.1, ∀ y ∈ H', SigEq P d x y →
+            ((∃ G' ∈ done, x ∈ G'.1 ∧ y ∈ G'.1) ∨ (x ∈ G ∧ y ∈ G)) → False := by
+          intro K hK x hx y hy hxy hsame
+          have hyG := hsubG y hy
+          have hxG : x ∈ G := by
+            rcases hsame with ⟨G', hG', _, hyG'⟩ | ⟨h, _⟩
+            · exact absurd hyG (hGd G' hG' y hyG')
+            · exact h
+          rcases hI.grp K hK with hold | hnew
+          · obtain ⟨G', hG', hsub⟩ := hR.inside K hold
+            exact hGd G' hG' x (hsub x hx) hxG
+          · obtain ⟨pr0, hpr0, _⟩ := hnew.seenMem
+            have hne : seen ≠ [] := by intro h; rw [h] at hpr0; simp at hpr0
+            have hsd : (s, σ) ∈ pairs.drop 1 := by rw [hsplit]; exact mem_drop_one_of_seen seen rest (s, σ) hne
+            exact hsno K hK (hnew.closed (s, σ) hsd ⟨x, hx, hxy.trans (hsig y hy).symm⟩)
+        intro H hH K hK x hx y hy hxy hsame
+        rcases a2 H hH with h1 | rfl <;> rcases a2 K hK with h2 | rfl
+        · exact hI.sep H h1 K h2 x hx y hy hxy hsame
+        · exact (hnew_old H h1 x hx y hy hxy hsame).elim
+        · refine (hnew_old K h2 y hy x hx hxy.symm ?_).elim
+          rcases hsame with ⟨G', hG', a, b⟩ | ⟨a, b⟩
+          · exact Or.inl ⟨G', hG', b, a⟩
+          · exact Or.inr ⟨b, a⟩
+        · rfl
     · simp only [hrep, if_false]
-      refine ⟨hI.wf, hI.old, ?_, ?_, hI.sig, hI.nr, hI.ne, ?_⟩
+      refine ⟨hI.wf, hI.old, ?_, ?_, hI.sig, hI.nr, hI.ne, ?_, hI.sep⟩
       rotate_left 2
       · obtain ⟨news, hn1, hn2⟩ := hI.app
         refine ⟨news, hn1, fun _ hnil => ?_⟩
@@ -504,8 +535,13 @@ theorem paag_spec (P : Partition) (d : DFA) (hwf : d.WF) (done : List (List Int 
       (G.1 ≠ [] → news ≠ []) ∧ (G.1 ≠ [] → news.length = 1 → ∀ H ∈ news, H.1 = G.1) := by
   obtain ⟨_, hp2⟩ := pairs_facts P d G.1
   have hpairs : ∀ s σ, (s, σ) ∈ P.buildGroupTrans d G.1 → s ∈ G.1 ∧ σ = sigOf P d s := fun s σ h => (hp2 s σ).1 h
-  have h0 : IInv P d Pn G.1 (P.buildGroupTrans d G.1) [] Pn :=
-    ⟨hR.wf, fun H hH => hH, fun H hH => Or.inl hH, by simp, hR.sig, hR.nr, hR.ne, [], by simp, fun h => absurd rfl h⟩
+  have h0 : IInv P d done Pn G.1 (P.buildGroupTrans d G.1) [] Pn :=
+    ⟨hR.wf, fun H hH => hH, fun H hH => Or.inl hH, by simp, hR.sig, hR.nr, hR.ne, ⟨[], by simp, fun h => absurd rfl h⟩, by
+      intro H hH K hK x hx y hy hxy hsame
+      rcases hsame with h | ⟨hxG, _⟩
+      · exact hR.sep H hH K hK x hx y hy hxy h
+      · obtain ⟨G', hG', hsub⟩ := hR.inside H hH
+        exact absurd hxG (hGd G' hG' x (hsub x hx))⟩
   have hI := paag_loop P d hwf done Pn hR G.1 hGd (P.buildGroupTrans d G.1) hpairs (P.buildGroupTrans d G.1) [] (by simp) Pn h0
   have heq : Pn.partitionAndAddGroups (P.buildGroupTrans d G.1) = (P.buildGroupTrans d G.1).foldl (fun p pr =>
       if p.rep pr.1 = -1 then p.add (collectSame pr.2 ((P.buildGroupTrans d G.1).drop 1) (mkSet [pr.1])) else p) Pn := rfl
@@ -514,7 +550,7 @@ theorem paag_spec (P : Partition) (d : DFA) (hwf : d.WF) (done : List (List Int 
       if p.rep pr.1 = -1 then p.add (collectSame pr.2 ((P.buildGroupTrans d G.1).drop 1) (mkSet [pr.1])) else p) Pn = res at hI
   have hplaced : ∀ s ∈ G.1, ∃ H ∈ res.groups, s ∈ H.1 :=
     fun s hs => hI.placed (s, sigOf P d s) ((hp2 s _).2 ⟨hs, rfl⟩)
-  refine ⟨⟨hI.wf, ?_, ?_, hI.sig, hI.nr, hI.ne⟩, ?_⟩
+  refine ⟨⟨hI.wf, ?_, ?_, hI.sig, hI.nr, hI.ne, ?_⟩, ?_⟩
   · intro H hH
     rcases hI.grp H hH with h | h
     · obtain ⟨G', hG', hs⟩ := hR.inside H h
@@ -526,6 +562,12 @@ theorem paag_spec (P : Partition) (d : DFA) (hwf : d.WF) (done : List (List Int 
     · obtain ⟨H, hH, hm⟩ := hR.covered G' hG' s hs
       exact ⟨H, hI.old H hH, hm⟩
     · exact hplaced s hs
+  · intro H hH K hK x hx y hy hxy ⟨G', hG', a, b⟩
+    apply hI.sep H hH K hK x hx y hy hxy
+    simp at hG'
+    rcases hG' with hG' | rfl
+    · exact Or.inl ⟨G', hG', a, b⟩
+    · exact Or.inr ⟨a, b⟩
   · obtain ⟨news, hn1, hn2⟩ := hI.app
     -- a member of `G` is in no group that was there before
     have hnotold : ∀ s ∈ G.1, ∀ K ∈ Pn.groups, s ∉ K.1 := by
@@ -558,23 +600,62 @@ theorem paag_spec (P : Partition) (d : DFA) (hwf : d.WF) (done : List (List Int 
 
 /-! ### one round: `refine` -/
 
-theorem refine_spec (P : Partition) (d : DFA) (hwf : d.WF) (hP : PWF P) : RInv P d P.groups (refine d P) := by
+theorem refine_spec' (P : Partition) (d : DFA) (hwf : d.WF) (hP : PWF P) :
+    RInv P d P.groups (refine d P) ∧
+    ((∀ G ∈ P.groups, G.1 ≠ []) → P.groups.length ≤ (refine d P).groups.length ∧
+      ((refine d P).groups.length = P.groups.length → (refine d P).groups.map (·.1) = P.groups.map (·.1))) := by
   have gen : ∀ (todo done : List (List Int × Int)) (Pn : Partition), P.groups = done ++ todo → RInv P d done Pn →
-      RInv P d P.groups (todo.foldl (fun Pn G => Pn.partitionAndAddGroups (P.buildGroupTrans d G.1)) Pn) := by
+      RInv P d P.groups (todo.foldl (fun Pn G => Pn.partitionAndAddGroups (P.buildGroupTrans d G.1)) Pn) ∧
+      ((∀ G ∈ todo, G.1 ≠ []) → ∃ newsAll,
+        (todo.foldl (fun Pn G => Pn.partitionAndAddGroups (P.buildGroupTrans d G.1)) Pn).groups = Pn.groups ++ newsAll ∧
+        todo.length ≤ newsAll.length ∧ (newsAll.length = todo.length → newsAll.map (·.1) = todo.map (·.1))) := by
     intro todo
     induction todo with
-    | nil => intro done Pn hs hR; simp at hs; rw [hs]; simpa using hR
+    | nil =>
+      intro done Pn hs hR; simp at hs; rw [hs]
+      exact ⟨by simpa using hR, fun _ => ⟨[], by simp, by simp, by simp⟩⟩
     | cons G todo ih =>
       intro done Pn hs hR
       simp only [List.foldl_cons]
-      apply ih (done ++ [G]) _ (by rw [hs]; simp)
-      refine (paag_spec P d hwf done Pn hR G ?_ (hP.sorted G (by rw [hs]; simp))).1
-      intro G' hG' x hx
-      have hd := hP.disj
-      rw [hs, List.pairwise_append] at hd
-      exact hd.2.2 G' hG' G (by simp) x hx
-  exact gen P.groups [] Partition.empty (by simp) ⟨PWF.empty, by simp [Partition.empty], by simp, by simp [Partition.empty],
-    by simp [Partition.empty], by simp [Partition.empty]⟩
+      have hstep := paag_spec P d hwf done Pn hR G (by
+        intro G' hG' x hx
+        have hd := hP.disj
+        rw [hs, List.pairwise_append] at hd
+        exact hd.2.2 G' hG' G (by simp) x hx) (hP.sorted G (by rw [hs]; simp))
+      obtain ⟨hR', news, hn1, hn2, hn3⟩ := hstep
+      obtain ⟨hfin, hcnt⟩ := ih (done ++ [G]) _ (by rw [hs]; simp) hR'
+      refine ⟨hfin, ?_⟩
+      intro hne
+      obtain ⟨rest, hr1, hr2, hr3⟩ := hcnt (fun G' hG' => hne G' (by simp [hG']))
+      have hGne := hne G (by simp)
+      have hnews := hn2 hGne
+      have hpos : 1 ≤ news.length := by
+        cases news with
+        | nil => exact absurd rfl hnews
+        | cons _ _ => simp
+      refine ⟨news ++ rest, by rw [hr1, hn1]; simp, by simp; omega, ?_⟩
+      intro hlen
+      simp only [List.length_append, List.length_cons] at hlen
+      have h1 : news.length = 1 := by omega
+      have h2 : rest.length = todo.length := by omega
+      simp only [List.map_append, List.map_cons]
+      rw [hr3 h2]
+      match news, h1, hn3 hGne h1 with
+      | [H0], _, hH => simp [hH H0 (by simp)]
+  have h0 : RInv P d [] Partition.empty := ⟨PWF.empty, by simp [Partition.empty], by simp, by simp [Partition.empty],
+    by simp [Partition.empty], by simp [Partition.empty], by simp [Partition.empty]⟩
+  obtain ⟨g1, g2⟩ := gen P.groups [] Partition.empty (by simp) h0
+  refine ⟨g1, ?_⟩
+  intro hne
+  obtain ⟨newsAll, a1, a2, a3⟩ := g2 hne
+  have hgr : (refine d P).groups = newsAll := by
+    have : (refine d P).groups = Partition.empty.groups ++ newsAll := a1
+    simpa [Partition.empty] using this
+  rw [hgr]
+  exact ⟨a2, a3⟩
+
+theorem refine_spec (P : Partition) (d : DFA) (hwf : d.WF) (hP : PWF P) : RInv P d P.groups (refine d P) :=
+  (refine_spec' P d hwf hP).1
 
 /-- invariant of the refinement loop -/
 structure PInv (d : DFA) (P : Partition) : Prop where
@@ -733,5 +814,95 @@ theorem DFA.minimize_lang (d d' : DFA) (hwf : d.WF) (hfs : SSorted d.final) (h :
     simp only [hl] at h; injection h with h; subst h
     obtain ⟨hP, he⟩ := refineLoop_spec d hwf _ _ P hl (d.initPartition_pinv hfs)
     exact buildMin_lang d hwf P (stable_of_exit d hwf P hP he) w
+
+/-! ### termination of the refinement loop -/
+
+/-- what `refine` produces: besides the invariant, no empty group and `nextRep` = number of groups -/
+structure Fresh (d : DFA) (P : Partition) : Prop where
+  pinv : PInv d P
+  ne : ∀ G ∈ P.groups, G.1 ≠ []
+  nr : P.nextRep = (P.groups.length : Int)
+
+theorem refine_fresh (P : Partition) (d : DFA) (hwf : d.WF) (hP : PInv d P) : Fresh d (refine d P) :=
+  ⟨refine_pinv P d hwf hP, (refine_spec P d hwf hP.wf).ne, (refine_spec P d hwf hP.wf).nr⟩
+
+/-- disjoint non-empty groups of states: there are at most `|Q|` of them -/
+theorem groups_le_states (d : DFA) (P : Partition) (hP : PInv d P) (hne : ∀ G ∈ P.groups, G.1 ≠ []) :
+    P.groups.length ≤ d.states.length := by
+  have := length_le_of_injOn (fun G : List Int × Int => G.1.headD 0) P.groups d.states ?_ ?_ ?_
+  · exact this
+  · -- the groups are pairwise different (they have different representatives)
+    apply List.nodup_iff_pairwise_ne.2
+    have := hP.wf.reps
+    rw [List.pairwise_map] at this
+    exact this.imp (fun h he => by rw [he] at h; omega)
+  · intro G hG H hH he
+    have hg : G.1.headD 0 ∈ G.1 := by
+      cases hgl : G.1 with
+      | nil => exact absurd hgl (hne G hG)
+      | cons x xs => simp
+    have hh : H.1.headD 0 ∈ H.1 := by
+      cases hhl : H.1 with
+      | nil => exact absurd hhl (hne H hH)
+      | cons x xs => simp
+    exact hP.wf.same_group hG hH hg (he ▸ hh)
+  · intro G hG
+    have hg : G.1.headD 0 ∈ G.1 := by
+      cases hgl : G.1 with
+      | nil => exact absurd hgl (hne G hG)
+      | cons x xs => simp
+    exact hP.sub G hG _ hg
+
+theorem equal_of_same (Pn P : Partition) (h1 : Pn.groups.map (·.1) = P.groups.map (·.1)) (h2 : Pn.nextRep = P.nextRep) :
+    Pn.equal P = true := by
+  simp only [Partition.equal, Bool.and_eq_true, beq_iff_eq, List.all_eq_true, List.any_eq_true]
+  refine ⟨⟨?_, ?_⟩, h2⟩
+  · have := congrArg List.length h1; simpa using this
+  · intro g hg
+    have : g.1 ∈ P.groups.map (·.1) := by rw [← h1]; exact List.mem_map.2 ⟨g, hg, rfl⟩
+    obtain ⟨h, hh, he⟩ := List.mem_map.1 this
+    exact ⟨h, hh, by rw [he]; exact setEq_refl _⟩
+
+theorem refineLoop_ok_fresh (d : DFA) (hwf : d.WF) (fuel : Nat) (P : Partition) (hF : Fresh d P)
+    (hfuel : d.states.length - P.groups.length < fuel) : ∃ P', refineLoop d fuel P = .ok P' := by
+  induction fuel generalizing P with
+  | zero => omega
+  | succ fuel ih =>
+    simp only [refineLoop]
+    by_cases hc : (refine d P).equal P = true
+    · exact ⟨P, by simp [hc]⟩
+    · simp only [hc]
+      have hFn := refine_fresh P d hwf hF.pinv
+      obtain ⟨_, hcnt⟩ := refine_spec' P d hwf hF.pinv.wf
+      obtain ⟨hle, heq⟩ := hcnt hF.ne
+      have hlt : P.groups.length < (refine d P).groups.length := by
+        rcases Nat.lt_or_ge P.groups.length (refine d P).groups.length with h | h
+        · exact h
+        · exfalso
+          have he : (refine d P).groups.length = P.groups.length := by omega
+          apply hc
+          apply equal_of_same _ _ (heq he)
+          rw [hFn.nr, hF.nr, he]
+      have hb := groups_le_states d (refine d P) hFn.pinv hFn.ne
+      apply ih (refine d P) hFn
+      omega
+
+/-- the refinement loop returns within `|Q| + 2` rounds from any partition satisfying the invariant -/
+theorem refineLoop_ok (d : DFA) (hwf : d.WF) (fuel : Nat) (P : Partition) (hP : PInv d P)
+    (hfuel : d.states.length + 2 ≤ fuel) : ∃ P', refineLoop d fuel P = .ok P' := by
+  cases fuel with
+  | zero => omega
+  | succ fuel =>
+    simp only [refineLoop]
+    by_cases hc : (refine d P).equal P = true
+    · exact ⟨P, by simp [hc]⟩
+    · simp only [hc]
+      exact refineLoop_ok_fresh d hwf fuel (refine d P) (refine_fresh P d hwf hP) (by omega)
+
+/-- `Minimize` always returns -/
+theorem DFA.minimize_ok (d : DFA) (hwf : d.WF) (hfs : SSorted d.final) : ∃ d', d.minimize = .ok d' := by
+  obtain ⟨P, hP⟩ := refineLoop_ok d hwf d.minimizeFuel d.initPartition (d.initPartition_pinv hfs)
+    (by simp [DFA.minimizeFuel])
+  exact ⟨buildMin d P, by simp only [DFA.minimize, DFA.minimizePartition, hP]⟩
 
 end AlgoVerif.C13
